@@ -17,7 +17,7 @@ NATIVE_COVERS = {"_toposort": ["_toposort"]}
 
 def native(tier, seed):
     from vf import graph_native
-    return [graph_native.sweep(tier, seed)]
+    return [graph_native.sweep(tier, seed), graph_native.sweep5(tier, seed)]
 
 
 # thorough tier: deliberate edits that must turn an obligation red (applied to a scratch copy, never to /repo)
